@@ -3,7 +3,7 @@
 # It sits on top of /venv (which has numpy/scipy/matplotlib and ExactPack's deps)
 # and adds z3-solver, cvc5, crosshair-tool, jsonschema.  Idempotent.
 set -e
-V=/verif/.venv
+V="$(cd "$(dirname "$0")/.." && pwd)/.venv"
 if [ -x "$V/bin/python" ] && "$V/bin/python" -c "import z3, numpy, jsonschema" 2>/dev/null; then
   exit 0
 fi
